@@ -2,6 +2,7 @@
 K3: shape of Context.set/get/eval/_to_js/_to_python (conversion applied exactly once on each crossing; fresh
 containers).  B: generated JSON-like values (boundary numbers, non-BMP text, nesting, shared sub-objects, non-string
 keys), script results, exposed callables, interleavings of set/eval/get."""
+from pyvc import structural as _S_
 import math, random
 from pyvc import groups
 from pyvc.groups import ob
@@ -12,23 +13,23 @@ def c11_struct(tier="quick", seed=0):
     from pyvc import structural as S
     import ast
     out = []
-    st = ast.unparse(S.fn("microjs.context", "Context.set"))
-    gt = ast.unparse(S.fn("microjs.context", "Context.get"))
-    ev = ast.unparse(S.fn("microjs.context", "Context.eval"))
+    st = _S_.unparse(S.fn("microjs.context", "Context.set"))
+    gt = _S_.unparse(S.fn("microjs.context", "Context.get"))
+    ev = _S_.unparse(S.fn("microjs.context", "Context.eval"))
     out.append(ob("C11.struct.set-converts", "self._globals[name] = self._to_js(value)" in st, "K3", "set stores _to_js(value) under the given name"))
     out.append(ob("C11.struct.get-converts", "return self._to_python(value)" in gt and "self._globals.get(name, UNDEFINED)" in gt, "K3", "get returns _to_python(globals[name])"))
     out.append(ob("C11.struct.eval-converts", "return self._to_python(result)" in ev, "K3", "eval returns _to_python(result)"))
     tj = S.fn("microjs.context", "Context._to_js")
-    src = ast.unparse(tj)
+    src = _S_.unparse(tj)
     order = [src.find("isinstance(value, bool)"), src.find("isinstance(value, (int, float))")]
     out.append(ob("C11.struct.to_js-bool-before-int", 0 <= order[0] < order[1], "K3", "bool is tested before int (bool is an int subtype)"))
     out.append(ob("C11.struct.to_js-fresh-containers", "arr = JSArray()" in src and "obj = JSObject()" in src and "obj.set(str(k), self._to_js(v))" in src, "K3",
                   "lists/dicts are rebuilt into fresh arrays/objects, keys through str()"))
-    tp = ast.unparse(S.fn("microjs.context", "Context._to_python"))
+    tp = _S_.unparse(S.fn("microjs.context", "Context._to_python"))
     out.append(ob("C11.struct.to_python-own-data-only", "value._properties.items()" in tp and "_getters" not in tp, "K3", "objects convert to dicts of own data properties"))
     out.append(ob("C11.struct.to_python-fresh", "result: Any = []" in tp and "result = {}" in tp, "K3", "arrays/objects convert into newly allocated lists/dicts"))
     for fn in ("VM._call_function", "VM._call_method", "VM._call_callback"):
-        s_ = ast.unparse(S.fn("microjs.vm", fn))
+        s_ = _S_.unparse(S.fn("microjs.vm", fn))
         ok = "from_python(" in s_ and ("callee(*args)" in s_ or "method(*args)" in s_ or "callback(*args)" in s_)
         out.append(ob(f"C11.struct.native-protocol.{fn.split('.')[-1]}", ok, "K3", "host callables get the arguments positionally in order; results go through from_python"))
     return out
